@@ -66,7 +66,7 @@ def classify_callee(name):
 
 
 class Site:
-    __slots__ = ("fn", "bb", "cls", "kind", "ops", "span", "body", "sig", "toks", "call", "msg")
+    __slots__ = ("fn", "bb", "cls", "kind", "ops", "span", "body", "sig", "toks", "call", "msg", "opsr", "optoks")
 
     def key(self):
         return "%s/%s/%s" % (self.fn, self.cls, self.sig)
@@ -199,6 +199,11 @@ def const_len(t, depth=0):
     if k == "call":
         nm = t[1]
         if re.search(r"::(index|index_mut|get_unchecked|get_unchecked_mut)$", nm) and len(t[2]) == 2:
+            ix = t[2][1]
+            if ix[0] == "call" and re.search(r"::BitRange::(aligned_byte_range|containing_byte_range)$", ix[1]) and len(ix[2]) == 1:
+                br = _const_bitrange(None, ix[2][0])
+                if br is not None and br[0] <= br[1]:
+                    return -(-br[1] // 8) - br[0] // 8
             rb = range_bounds(t[2][1])
             if rb and rb[0] == "range" and rb[1] is not None and rb[2] is not None:
                 return rb[2] - rb[1]
@@ -274,6 +279,8 @@ def enumerate_sites(F, fn, cfg):
         if s.call is not None and s.call.selfty:
             s.toks.add("self:" + s.call.selfty)
         rendered = "; ".join(fmt(tr, 160) for tr in trees[:3])
+        s.opsr = [fmt(tr, 400) for tr in trees]
+        s.optoks = [tokens(tr) for tr in trees]
         if s.cls == "explicit" or s.cls == "unwrap":
             # message string literal if any (stable, human meaningful)
             for tr in trees:
@@ -596,6 +603,20 @@ def table_match(entry, s):
                 return False
         elif tok.startswith("sig:"):
             if tok[4:] not in s.sig:
+                return False
+        elif re.match(r"op\d:", tok):
+            # constraint on one operand only: `opN:^prefix` (rendered operand starts with), `opN:fn:…`/`opN:field:…`
+            # (token of that operand), else substring of the rendered operand
+            n, want = int(tok[2]), tok[4:]
+            if n >= len(s.opsr):
+                return False
+            if want.startswith("^"):
+                if not s.opsr[n].startswith(want[1:]):
+                    return False
+            elif want.startswith(("fn:", "field:", "const:", "param:")):
+                if not _tok_in(want, s.optoks[n]):
+                    return False
+            elif want not in s.opsr[n]:
                 return False
         elif tok not in s.toks:
             return False
